@@ -363,6 +363,9 @@ def parse_youtube_url(url, fix_common_mistakes=True):
 
         user = splitted_path[1]
 
+        if not user:
+            return None
+
         return YoutubeUser(id=None, name=user)
 
     # Channel path?
@@ -376,9 +379,12 @@ def parse_youtube_url(url, fix_common_mistakes=True):
         if len(splitted_path) < 2:
             return None
 
-        name = splitted_path[1]
+        name = splitted_path[1].lstrip("@")
 
-        return YoutubeChannel(id=None, name=name.lstrip("@"))
+        if not name:
+            return None
+
+        return YoutubeChannel(id=None, name=name)
 
     elif path.startswith("/channel/"):
         splitted_path = pathsplit(path)
@@ -387,6 +393,9 @@ def parse_youtube_url(url, fix_common_mistakes=True):
             return None
 
         cid = splitted_path[1]
+
+        if not cid:
+            return None
 
         return YoutubeChannel(id=cid, name=None)
 
@@ -414,7 +423,12 @@ def parse_youtube_url(url, fix_common_mistakes=True):
             if name in YOUTUBE_CHANNEL_NAME_BLACKLIST:
                 return
 
-            return YoutubeChannel(id=None, name=name.lstrip("@"))
+            name = name.lstrip("@")
+
+            if not name:
+                return
+
+            return YoutubeChannel(id=None, name=name)
 
 
 def extract_video_id_from_youtube_url(url):
